@@ -56,8 +56,11 @@ func senderCalls(fn *ssa.Function) map[string][]*ssa.Call {
 
 func runR07_1(c *Ctx, r *R) {
 	for _, fname := range []string{"channel.Send", "channel.SendAndClose"} {
-		f := r.Need("mpx", fname)
-		if f == nil {
+		r.Need("mpx", fname)
+	}
+	// every method of channel that sends a payload frame (Send, SendAndClose, or a helper they share)
+	for _, f := range c.SrcFuncs("mpx") {
+		if f.Parent() != nil || !typeIsRecv(f, "channel") || len(senderCalls(f)) == 0 {
 			continue
 		}
 		var data ssa.Value
@@ -67,8 +70,7 @@ func runR07_1(c *Ctx, r *R) {
 			}
 		}
 		if data == nil {
-			r.Unk(fnKey(f)+"/payload", f.Pos(), "no payload parameter")
-			continue
+			continue // sends control frames only (window updates, close without payload)
 		}
 		sc := senderCalls(f)
 		adds := fieldMethodCalls(f, "sendWindow", "Add")
@@ -359,6 +361,7 @@ func runR07_2(c *Ctx, r *R) {
 	}
 	if f := r.Need("mpx", "channel.ReceiveAsync"); f != nil {
 		key := fnKey(f) + "/ack"
+		f = ackHost(f)
 		adds := fieldMethodCalls(f, "recvBytes", "Add")
 		sends := senderCalls(f)["sendWindow"]
 		if len(adds) < 2 || len(sends) != 1 {
@@ -477,9 +480,28 @@ func runR07_5(c *Ctx, r *R) {
 				sel = s
 			}
 		})
+		// the wait point: the select itself, or the call of a helper of the package that blocks in one
+		// (st, ok := s.awaitSendWindow(ctx))
+		var wait ssa.Instruction
+		if sel != nil {
+			wait = sel
+		} else {
+			for _, call := range callsIn(f, false) {
+				h := call.Common().StaticCallee()
+				if h == nil || h.Blocks == nil || h.Pkg != f.Pkg {
+					continue
+				}
+				allInstrs(h, func(i ssa.Instruction) {
+					if s2, ok := i.(*ssa.Select); ok && s2.Blocking && sel == nil {
+						sel = s2
+						wait = call.(ssa.Instruction)
+					}
+				})
+			}
+		}
 		if sel == nil || len(loads) == 0 {
 			r.Unk(key, f.Pos(), "anchor lost: no blocking select / window load")
-		} else if reachesInstr(sel, loads[0]) && reachesInstr(loads[0], sel) {
+		} else if reachesInstr(wait, loads[0]) && reachesInstr(loads[0], wait) {
 			// the select must have a case on the wake channel and on both contexts (C09 checks the contexts)
 			hasWake := false
 			for _, st := range sel.States {
